@@ -125,6 +125,8 @@ def check(ctx):
            "from_cbor_bstr(v) is the wire constructor applied to v", where=pub.span)
 
     # ---- R-3 -----------------------------------------------------------------------------------------------------
+    from rules import extractors as _ex
+    _ex.check_extractors(ctx.under("R-1", "extractors"), "R-1", only={"try_as_bytes"})        # the bytes stored are the item's own
     check_cbor_bstr(ctx, "R-3")
     from rules.c11 import check_protected_map_form
     from rules import c13 as _c13
